@@ -140,7 +140,7 @@ def decode_shard(ds, path: Path):
     return [sp.ident(e) for e in it.iterate_shard(path)]
 
 
-def run_impl(root: Path, fmt: str, eps: int, sessions, attrs, reopen: bool, md_shift: int = 0):
+def run_impl(root: Path, fmt: str, eps: int, sessions, attrs, reopen: bool, md_shift: int = 0, select: bool = False):
     """Execute on the real API. Returns per-write records and the final per-split listing."""
     from sedpack.io import Dataset, Attribute
     A = [Attribute(name=n, dtype=d, shape=s) for n, d, s in attrs]
@@ -207,9 +207,39 @@ def run_impl(root: Path, fmt: str, eps: int, sessions, attrs, reopen: bool, md_s
         listing["missing_files"] = [p for p in named if p not in on_disk]
         listing["total"] = {s: (d2._dataset_info.splits[name].number_of_examples if name in d2._dataset_info.splits else 0)
                             for s, name in enumerate(SPLITS)}
+        if select:
+            listing["selections"] = select_by_metadata(d2, fmt)
     except Exception as e:  # noqa: BLE001
         read_err = f"{type(e).__name__}: {str(e)[:200]}"
     return {"records": records, "listing": listing, "session_errors": session_errors, "read_err": read_err}
+
+
+def select_by_metadata(ds, fmt: str):
+    """Iterate every split restricted, by `shard_filter`, to the shards labelled with one metadata value — through every
+    interface that accepts the option.  Returns [{split, md, iface, got | error}]."""
+    import asyncio
+    out = []
+    ifaces = ["sync", "concurrent", "tf"] + (["async"] if fmt in ("fb", "npz") else [])
+    for s, name in enumerate(SPLITS):
+        if name not in ds._dataset_info.splits:
+            continue
+        codes = sorted({md_code(i.custom_metadata) for i in ds.shard_info_iterator(name)})
+        for code in codes:
+            flt = (lambda si, code=code: md_code(si.custom_metadata) == code)
+            for iface in ifaces:
+                kw = dict(split=name, repeat=False, shuffle=0, shard_filter=flt)
+                try:
+                    if iface == "sync": got = [sp.ident(e) for e in ds.as_numpy_iterator(**kw)]
+                    elif iface == "concurrent": got = [sp.ident(e) for e in ds.as_numpy_iterator_concurrent(file_parallelism=2, **kw)]
+                    elif iface == "tf": got = [sp.ident(e) for e in ds.as_tfdataset(batch_size=0, file_parallelism=2, **kw).as_numpy_iterator()]
+                    else:
+                        async def main():
+                            return [sp.ident(e) async for e in ds.as_numpy_iterator_async(file_parallelism=2, **kw)]
+                        got = asyncio.run(main())
+                    out.append({"split": s, "md": code, "iface": iface, "got": sorted(got)})
+                except Exception as e:  # noqa: BLE001
+                    out.append({"split": s, "md": code, "iface": iface, "error": f"{type(e).__name__}: {str(e)[:120]}"})
+    return out
 
 
 def model_requests(eps: int, records, intended_ok):
@@ -298,7 +328,8 @@ def explore(ctx, focus: str):
     for i, c in enumerate(cases):
         root = ctx.scratch / f"{focus}_{i}"
         c["attrs"] = [tuple(a[:2]) + (tuple(a[2]),) for a in c["attrs"]]
-        c["impl"] = run_impl(root, c["fmt"], c["eps"], c["sessions"], c["attrs"], c["reopen"], c.get("md_shift", 0))
+        c["impl"] = run_impl(root, c["fmt"], c["eps"], c["sessions"], c["attrs"], c["reopen"], c.get("md_shift", 0),
+                             select=(focus == "C11" and i % 3 == 0))
         shutil.rmtree(root, ignore_errors=True)
     reqs, idx = [], []
     for c in cases:
